@@ -28,6 +28,7 @@ extern pthread_mutex_t bidib_uplink_queue_mutex __attribute__((weak));
 extern pthread_mutex_t bidib_uplink_error_queue_mutex __attribute__((weak));
 extern pthread_mutex_t bidib_uplink_intern_queue_mutex __attribute__((weak));
 int __lsan_do_recoverable_leak_check(void) __attribute__((weak));
+void __sanitizer_set_death_callback(void (*cb)(void)) __attribute__((weak));
 }
 
 namespace vf {
@@ -35,7 +36,6 @@ namespace vf {
 Ctx *g_ctx = nullptr;
 Session *g_sess = nullptr;
 static int g_verdict_fd = -1;
-static bool g_leak_check = false;
 
 uint64_t fnv(const std::string &s) {
 	uint64_t h = 1469598103934665603ULL;
@@ -115,6 +115,15 @@ void Ctx::fail(const std::string &msg) {
 void Ctx::finish_ok() {
 	emit(*this, true, "");
 	_exit(0);
+}
+
+// a sanitizer is about to kill the child: hand over what is known about the case
+static void on_sanitizer_death(void) {
+	if (!g_ctx || g_verdict_fd < 0) return;
+	std::string d = g_ctx->desc.str();
+	if (d.size() > 6000) d = d.substr(0, 6000) + "...(truncated)";
+	std::string s = "desc " + esc(d) + "\n";
+	(void) !write(g_verdict_fd, s.data(), s.size());
 }
 
 static void on_fatal(const char *kind, const char *detail) {
@@ -337,6 +346,8 @@ Verdict run_case_forked(const PropInfo &p, const ref::Bytes &data, const ref::By
 		g_verdict_fd = pv[1];
 		alarm(120);                       // wall-clock backstop only (=> inconclusive, see parent)
 		Ctx ctx;
+		g_ctx = &ctx;
+		if (&__sanitizer_set_death_callback) __sanitizer_set_death_callback(on_sanitizer_death);
 		ctx.excluded = excluded;
 		run_case_here(p, data, sched, ctx);
 		ctx.finish_ok();
@@ -395,7 +406,20 @@ Verdict run_case_forked(const PropInfo &p, const ref::Bytes &data, const ref::By
 			                         : "exit " + std::to_string(WEXITSTATUS(st))) +
 			        ") " + first;
 		}
-		v.stderr_tail = err.size() > 6000 ? err.substr(0, 6000) : err;
+		// keep the report readable: drop over-long template frames
+		std::string trimmed;
+		{
+			std::istringstream es(err);
+			std::string l;
+			int kept = 0;
+			while (std::getline(es, l) && kept < 45) {
+				if (l.size() > 260) l = l.substr(0, 260) + " ...";
+				if (l.find("rc::") != std::string::npos || l.find("std::_") != std::string::npos) continue;
+				trimmed += l + "\n";
+				kept++;
+			}
+		}
+		v.stderr_tail = trimmed;
 	} else if (!v.ok) {
 		if (v.signature.empty()) {
 			// semantic failure: signature = message with numbers and hex blanked
